@@ -1,6 +1,8 @@
 #ifndef C19_CODECS_SPECDEFS_H
 #define C19_CODECS_SPECDEFS_H
+#ifndef VCAP
 #define VCAP ((size_t)256)            /* model capacity of an octet vector (appends do not depend on it) */
+#endif
 #define VEC_OK(v, room) (__CPROVER_is_fresh((v), sizeof(*(v))) && (v)->cap == VCAP && (v)->size <= VCAP - (room) && \
                          __CPROVER_is_fresh((v)->data, VCAP))
 #define OLDSZ(v) __CPROVER_old((v)->size)
